@@ -365,11 +365,13 @@ pub fn run(mut ctx: Ctx) -> ! {
                 Ok(i) => ctx.record(i),
                 Err(f) => {
                     if ctx.fail("l2", Some(tape), &f) {
+                        run::cleanup_members(&members);
                         break 'outer;
                     }
                 }
             }
         }
+        run::cleanup_members(&members);
     }
     let min = if ctx.replay.is_some() { 0 } else { 5 };
     ctx.finish(
